@@ -107,6 +107,7 @@ def main():
                                    'detail': {'case_id': cid, 'hashseeds': [results[0]['hashseed'], r['hashseed']]},
                                    'hashseed': r['hashseed']})
                 break
+    violations.sort(key=lambda v: v['no_input'])      # concrete failing inputs first
     if not gate['ok']:
         violations.append({'kind': 'lean-gate', 'no_input': True, 'detail': {'problems': gate['problems']}, 'hashseed': ''})
 
